@@ -280,9 +280,16 @@ impl Chunk for MwmoChunk {
             return Ok(Self::new());
         }
 
-        // Read all data
-        let mut data = vec![0u8; size];
-        reader.read_exact(&mut data)?;
+        // Read all data (grow with the bytes that are really there)
+        let mut data = Vec::new();
+        reader.by_ref().take(size as u64).read_to_end(&mut data)?;
+        if data.len() != size {
+            return Err(std::io::Error::new(
+                std::io::ErrorKind::UnexpectedEof,
+                "MWMO data shorter than its declared size",
+            )
+            .into());
+        }
 
         // Split by null terminators
         let mut filenames = Vec::new();
@@ -409,7 +416,8 @@ impl Chunk for ModfChunk {
         }
 
         let count = size / 64;
-        let mut entries = Vec::with_capacity(count);
+        // entries are pushed as they are read; do not reserve from the declared size
+        let mut entries = Vec::with_capacity(count.min(4096));
 
         for _ in 0..count {
             let mut buf = [0u8; 4];
